@@ -113,7 +113,7 @@ def shutdown(exited, exit_on_term, exit_on_kill, term_raises, tg_mode, outer_can
     W.outer_cancelled, W.shield_depth = False, 0
     c = make_client()
     p = Proc(exited, exit_on_term, exit_on_kill, term_raises, kill_raises)
-    c.process = p
+    c.process = p  # (make_client checked that the members the harness sets exist)
     if reader_eof:
         # the child closed its stdout (or wrote its last line) before the context is left: the reader task has seen
         # end-of-stream while the process may well be alive
